@@ -23,6 +23,7 @@ CONSTANTS Classes, Contexts,
           RegularExtra,    \* extra characters admitted by the regular pattern (negative config; {} as coded)
           AngleGuard,      \* TRUE as coded: background-image rejects values containing '<' or '>'
           FontFix, BgFix,  \* FALSE as pinned; TRUE = proposed repairs (fixes/C05-*.diff)
+          TrackAttribution,\* TRUE: carry what is needed to attribute a break to its root cause (second consumer, used branches)
           AttrEscapes,     \* 2 as pinned (escaped in SanitizeStyleAttributeValues AND by the generator); 1 = repaired; 0 = negative
           EmitEdges
 
@@ -71,7 +72,7 @@ FSegAccept(s) == IF s = "q_closed" \/ (s = "q_open1" /\ ~FontFix) THEN "FontFami
                  ELSE IF s = "g2" THEN "FontFamily.GenericName" ELSE ""
 FontInit == [core |-> "lead", cur |-> "lead", ok |-> TRUE, used |-> {}]
 FontStep(f, c) ==
-    IF c = "," THEN [core |-> "lead", cur |-> "lead", ok |-> f.ok /\ FSegAccept(f.core) # "", used |-> f.used \cup {FSegAccept(f.core)}]
+    IF c = "," THEN [core |-> "lead", cur |-> "lead", ok |-> f.ok /\ FSegAccept(f.core) # "", used |-> IF TrackAttribution THEN f.used \cup {FSegAccept(f.core)} ELSE {}]
     ELSE IF IsWsGo(c) THEN (IF f.cur = "lead" THEN f ELSE [f EXCEPT !.cur = FSegStep(f.cur, c)])
     ELSE LET n == FSegStep(f.cur, c) IN [f EXCEPT !.core = n, !.cur = n]
 FontSegBranch(f) == FSegAccept(f.core)
@@ -157,7 +158,7 @@ BgInit == [seg |-> BgSegInit, ok |-> TRUE, used |-> {}]
 BgSegAccept(s) == IF s.ph = "done" THEN s.br ELSE ""
 BgNext(b, c) ==
     IF AngleGuard /\ c \in {"<", ">"} THEN {[b EXCEPT !.ok = FALSE]}
-    ELSE IF c = "," THEN {[seg |-> BgSegInit, ok |-> b.ok /\ BgSegAccept(b.seg) # "", used |-> b.used \cup {BgSegAccept(b.seg)}]}
+    ELSE IF c = "," THEN {[seg |-> BgSegInit, ok |-> b.ok /\ BgSegAccept(b.seg) # "", used |-> IF TrackAttribution THEN b.used \cup {BgSegAccept(b.seg)} ELSE {}]}
     ELSE {[b EXCEPT !.seg = n] : n \in BgSegNext(b.seg, c)}
 BgSegBranch(b) == BgSegAccept(b.seg)
 BgAccept(b) == IF b.ok THEN BgSegAccept(b.seg) ELSE ""
@@ -178,6 +179,14 @@ Attribute(k, a, b) ==
         hits == {i \in 1..Len(BranchPriority) : BranchPriority[i] \in used}
     IN  IF hits = {} THEN b ELSE BranchPriority[CHOOSE i \in hits : \A j \in hits : i <= j]
 
+\* the acceptor can no longer accept, whatever follows
+AccDead(k, a) == CASE k \in {"Regular", "Enum", "Name"} -> a = "rej"
+                   [] k = "FontFamily" -> ~a.ok \/ a.core = "bad"
+                   [] k = "BackgroundImage" -> ~a.ok \/ a.seg.ph = "bad"
+DeadAcc(k) == CASE k \in {"Regular", "Enum", "Name"} -> "rej"
+                [] k = "FontFamily" -> [FontInit EXCEPT !.ok = FALSE]
+                [] k = "BackgroundImage" -> [BgInit EXCEPT !.ok = FALSE]
+
 Innocuous == <<"z", "Z", "e", "m", "p", "l", "U", "z", "s", "a", "f", "e", "Z", "S", "S", "Z", "r", "o", "p", "e", "r", "t", "y", "Z", "a", "l", "u", "e">>
 
 -----------------------------------------------------------------------------
@@ -188,10 +197,10 @@ ConStep(k, s, c) == LET t == CssStep(s, c) IN
 RECURSIVE ConRun(_, _, _)
 ConRun(k, s, cs) == IF cs = <<>> THEN s ELSE ConRun(k, ConStep(k, s, Head(cs)), Tail(cs))
 
-\* first event over the whole context: the CSS consumer, the end of the <style> element, the end of the attribute
-Dirty(x, s, r) == IF s.ev # "" THEN s.ev
-                  ELSE IF x = "style" /\ r = <<"END">> THEN "EndStyle"
-                  ELSE IF x = "attr" /\ r = <<"END">> THEN "EndAttr" ELSE ""
+\* State reduction (exact for the invariants): the consumer's first event is sticky and decides the verdict, so the
+\* rest of its state is dropped once an event happened; and nothing about the consumer matters once the acceptor
+\* can no longer accept (the value will be replaced by the innocuous constant).
+Collapse(s) == IF s.ev # "" THEN [CssInit EXCEPT !.ev = s.ev] ELSE s
 
 Init == /\ cls \in Classes /\ ctx \in Contexts
         /\ phase = "in"
@@ -203,23 +212,28 @@ Init == /\ cls \in Classes /\ ctx \in Contexts
 Feed(c) ==
     /\ phase = "in"
     /\ \E a \in AccNext(cls, acc, c) :
-        LET con2 == ConRun(cls, con, ToCss(ctx, c))
-            con12 == ConStep(cls, con1, c)                  \* what CSS would see with a single level of escaping
-            raw2 == IF ctx = "style" THEN CssRawStep(raw, c)
+        LET raw2 == IF ctx = "style" THEN CssRawStep(raw, c)
                     ELSE IF AttrEscapes = 0 /\ c = CDQ THEN <<"END">> ELSE raw
-        IN /\ acc' = a /\ con' = con2 /\ con1' = con12 /\ raw' = raw2
-           /\ lbl' = [op |-> "feed", sym |-> c]
+            conA == ConRun(cls, con, ToCss(ctx, c))
+            \* the end of the <style> element / of the attribute is an event of the context
+            con2 == IF raw2 = <<"END">> THEN [conA EXCEPT !.ev = Ev(conA, IF ctx = "style" THEN "EndStyle" ELSE "EndAttr")] ELSE conA
+            con12 == IF TrackAttribution THEN ConStep(cls, con1, c) ELSE con1   \* what CSS would see with a single level of escaping
+        IN IF AccDead(cls, a)
+           THEN acc' = DeadAcc(cls) /\ con' = CssInit /\ con1' = CssInit /\ raw' = <<>>
+           ELSE acc' = a /\ con' = Collapse(con2) /\ con1' = Collapse(con12) /\ raw' = IF con2.ev # "" THEN <<>> ELSE raw2
+    /\ lbl' = [op |-> "feed", sym |-> c]
     /\ UNCHANGED <<cls, ctx, phase, res>>
 
 \* the value ends; the sanitiser decides; templ appends ';'
 Close ==
     /\ phase = "in"
     /\ LET b == AccAccept(cls, acc)
-           ev == IF b = "" THEN Dirty(ctx, ConRun(cls, CssInit, Innocuous), <<>>)          \* InnocuousOnReject
-                 ELSE IF Dirty(ctx, con, raw) # "" THEN Dirty(ctx, con, raw) ELSE CssEndEvent(con)
-           ev1 == IF con1.ev # "" THEN con1.ev ELSE CssEndEvent(con1)
+           ev == IF b = "" THEN CssEndEvent(ConRun(cls, CssInit, Innocuous))          \* InnocuousOnReject
+                 ELSE CssEndEvent(con)
+           ev1 == CssEndEvent(con1)
            sig == IF ev = "" THEN ""
                   ELSE IF b = "" THEN "InnocuousValueNotClean"
+                  ELSE IF ~TrackAttribution THEN b
                   ELSE IF ctx = "attr" /\ ev1 = "" THEN "StyleAttr.DoubleEscape"          \* clean with one level of escaping
                   ELSE Attribute(cls, acc, b)
        IN /\ res' = [br |-> b, ev |-> ev, sig |-> sig]
